@@ -1,52 +1,70 @@
 package pc23
 
 import (
+	"bytes"
 	"fmt"
-	"math"
-	"os"
-	"path/filepath"
-	"strconv"
 	"testing"
 
-	"github.com/valyala/fastjson/fastfloat"
-
-	"verifharness/eng"
-	"verifharness/ev"
+	"github.com/segmentio/parquet-go"
 )
 
-func run(sql string) {
-	env := eng.Env(nil)
-	plan, cerr := eng.Compile(eng.Context(), sql, env, eng.Options{Optimize: true, Raw: true})
-	if cerr != nil {
-		fmt.Println("SQL:", sql, "COMPILE ERR:", cerr)
-		return
-	}
-	outs, err := plan.Run(eng.Context())
-	fmt.Println("SQL:", sql, "err:", err)
-	for _, f := range plan.OutFields {
-		fmt.Printf("  field %q : %s\n", f.Name, f.Type.String())
-	}
-	for _, o := range outs {
-		fmt.Printf("  %#v\n", o.String())
-	}
+type pqFlat struct {
+	ID  int64   `parquet:"id"`
+	I32 int32   `parquet:"i32"`
+	F   float64 `parquet:"f"`
+	F32 float32 `parquet:"f32"`
+	B   bool    `parquet:"b"`
+	S   string  `parquet:"s"`
+}
+type pqOpt struct {
+	ID int64    `parquet:"id"`
+	OI *int64   `parquet:"oi,optional"`
+	OF *float64 `parquet:"of,optional"`
+	OS *string  `parquet:"os,optional"`
+	OB *bool    `parquet:"ob,optional"`
+}
+type pqInner struct {
+	X    int64  `parquet:"x"`
+	Y    string `parquet:"y"`
+	Deep struct {
+		Z float64 `parquet:"z"`
+	} `parquet:"deep"`
+}
+type pqNested struct {
+	ID    int64    `parquet:"id"`
+	Inner pqInner  `parquet:"inner"`
+	Opt   *pqInner `parquet:"opt,optional"`
+}
+type pqRep struct {
+	ID   int64    `parquet:"id"`
+	Tags []string `parquet:"tags"`
+	Nums []int64  `parquet:"nums,list"`
 }
 
 func TestExplore(t *testing.T) {
-	d := ev.ScratchDir()
-	for _, s := range []string{"+1", "007", "-007", "9223372036854775808", "1e3", ".5", "5.", "0x1p-2", "0x10", "inf", "+inf", "-inf", "Infinity", "nan", "-nan", "+nan", "1_000", "1_0.5", "3e-1", "1.1e1", "1e400", "1e-400", "-0", "1E5", "1e+5", "+1.5", "-+inf", "1.e3", "0x_1p0", "t", "TRUE", "F", "1", "0", "123456789012345678901", "1.7976931348623157e308", "4.9e-324", "123456789012345678e5", "0.000001", "1e22", "1e23", "8.41e21","5e-324"} {
-		i1, e1 := strconv.ParseInt(s, 10, 64)
-		i2, e2 := fastfloat.ParseInt64(s)
-		f1, e3 := strconv.ParseFloat(s, 64)
-		f2, e4 := fastfloat.Parse(s)
-		fl := ""
-		if (e1 == nil) != (e2 == nil) || (e1 == nil && i1 != i2) {
-			fl += " INT-DISAGREE"
+	one := int64(1)
+	s := "str"
+	for _, rows := range [][]interface{}{
+		{pqFlat{1, 2, 1.5, 2.5, true, "a"}, pqFlat{2, -2, -1.5, 0.1, false, ""}},
+		{pqOpt{ID: 1, OI: &one}, pqOpt{ID: 2, OS: &s}},
+		{pqNested{ID: 1, Inner: pqInner{X: 5, Y: "y"}}, pqNested{ID: 2, Opt: &pqInner{X: 7, Y: "z"}}},
+		{pqRep{ID: 1}, pqRep{ID: 2, Tags: []string{"a", "b"}, Nums: []int64{1, 2, 3}}, pqRep{ID: 3, Tags: []string{}, Nums: []int64{4}}},
+	} {
+		var b bytes.Buffer
+		w := parquet.NewWriter(&b)
+		for _, r := range rows {
+			if err := w.Write(r); err != nil {
+				fmt.Println("write err", err)
+			}
 		}
-		if (e3 == nil) != (e4 == nil) || (e3 == nil && math.Float64bits(f1) != math.Float64bits(f2) && !(f1 != f1 && f2 != f2)) {
-			fl += " FLOAT-DISAGREE"
+		if err := w.Close(); err != nil {
+			fmt.Println("close err", err)
 		}
-		fmt.Printf("%-24q int strconv=%v,%v ff=%v,%v | float strconv=%v,%v ff=%v,%v %s\n", s, i1, e1 == nil, i2, e2 == nil, f1, e3 == nil, f2, e4 == nil, fl)
+		fmt.Println(w.Schema())
+		fr := readFile("parquet", b.Bytes(), "", 0)
+		fmt.Println(fr.Stage, fr.Err, schemaString(fr.Fields))
+		for _, r := range fr.Rows {
+			fmt.Println("  ", rowString(r))
+		}
 	}
-	os.WriteFile(filepath.Join(d, "a.json"), []byte("{\"a\":1,\"b\":\"x\", \"t\":\"2020-01-01T00:00:00+01:00\",\"l\":[],\"o\":{\"x\":1}}\n{\"a\":3e-1,\"t\":\"zz\",\"l\":[1],\"o\":{\"y\":\"s\",\"x\":null}}\n{\"a\":null,\"b\":[1,\"s\"],\"o\":{}}\n"), 0o644)
-	run("SELECT * FROM `" + filepath.Join(d, "a.json") + "` t")
 }
